@@ -31,7 +31,7 @@ const ruleSeq = "non-trivial = at least one committed transaction and a non-empt
 func init() {
 	seqStub := []string{"none needed (single client; disk = in-memory SimFile/SimReader where a restart is generated)"}
 	register(&PropDef{
-		ID: "C01", Quick: 6000, Thorough: 200000, Level: "exploration",
+		ID: "C01", Quick: 8000, Thorough: 400000, Level: "exploration",
 		Rule: "single-client histories of insert/put/merge/delete/reuse over a swarm-drawn schema (all column kinds, merge variants, late columns), capacity and block layout (prefilled sparse/nearly-full blocks); after every step the full state read through Row/Txn/Any readers is compared with the model; " + ruleSeq,
 		Gen: func(seed uint64, run int, tier string) *Case {
 			p := seqProfile{minSteps: 4, maxSteps: 30, wTxn: 20, wCreateCol: 2,
@@ -43,7 +43,7 @@ func init() {
 		Real: realComponents, Stub: seqStub,
 	})
 	register(&PropDef{
-		ID: "C02", Quick: 5000, Thorough: 150000, Level: "exploration",
+		ID: "C02", Quick: 8000, Thorough: 400000, Level: "exploration",
 		Rule: "part A (even runs, rollback erasure): single-client histories in which ~35% of the transactions end in an error (bodies mix successful and failing inserts, updates, merges, deletes, key operations over several blocks) run on collection A while twin B runs the same history without them; after every step Dump(A)==Dump(B)==model, nothing reaches the change stream for a rolled-back transaction; part B (odd runs, isolation): 1-3 writers park inside their bodies and inside their commits while 1-2 observers read the same rows, Range and Count; every value read under a read latch must equal the committed model state; " + ruleSeq,
 		Gen: func(seed uint64, run int, tier string) *Case {
 			p := seqProfile{minSteps: 4, maxSteps: 24, wTxn: 20, wCreateIndex: 1,
@@ -65,7 +65,7 @@ func init() {
 		Real: realComponents, Stub: seqStub,
 	})
 	register(&PropDef{
-		ID: "C03", Quick: 5000, Thorough: 150000, Level: "exploration",
+		ID: "C03", Quick: 8000, Thorough: 400000, Level: "exploration",
 		Rule: "single-client histories with bitmap indexes created and dropped at any point (several per column; numeric threshold, string equality/prefix, bool families), writes, merges, deletes, reuse, multi-block transactions and restarts (snapshot+restore); after every step every index is compared, through With(ix) and Row.Bool(ix), with its predicate evaluated on the model values; every third run (part B) builds indexes on a populated multi-block collection while 1-3 writers commit (yield point before each block of the back-fill) and compares every index with its predicate at quiescence; " + ruleSeq,
 		Gen: func(seed uint64, run int, tier string) *Case {
 			p := seqProfile{minSteps: 5, maxSteps: 28, wTxn: 20, wCreateIndex: 4, wDropIndex: 2, wRestart: 1, wCreateCol: 1,
@@ -89,7 +89,7 @@ func init() {
 		Real: realComponents, Stub: seqStub,
 	})
 	register(&PropDef{
-		ID: "C04", Quick: 5000, Thorough: 150000, Level: "exploration",
+		ID: "C04", Quick: 8000, Thorough: 300000, Level: "exploration",
 		Rule: "single-client histories over sparse/dense/multi-block layouts with reused offsets and rows lacking columns; read transactions run generated chains of With/Without/Union/WithUnion/WithValue/WithInt/WithUint/WithFloat/WithString (indexes, value columns, missing names) and Count, the exact Range visiting order, and Sum/Avg/Min/Max of every numeric type are compared with set algebra evaluated on the model; every third run (part B) runs the filter chains from reader threads while 1-3 writers commit to the filtered columns and indexes over several blocks: the visited offsets must equal the set algebra evaluated block by block on the model states captured at the moments the library took each block's read latch; " + ruleSeq,
 		Gen: func(seed uint64, run int, tier string) *Case {
 			p := seqProfile{minSteps: 5, maxSteps: 28, wTxn: 20, wCreateIndex: 2, wDropIndex: 1,
@@ -115,7 +115,7 @@ func init() {
 	})
 	concStub := []string{"thread scheduler (real goroutines released one at a time at repo hooks; enabledness from the real latch words)", "link: FIFO with seeded delay in front of the real commit.Channel", "disk: in-memory SimFile/SimReader under the real commit.Log and Snapshot/Restore"}
 	register(&PropDef{
-		ID: "C06", Quick: 4000, Thorough: 120000, Level: "exploration",
+		ID: "C06", Quick: 12000, Thorough: 1000000, Level: "exploration",
 		Rule: "2-5 concurrent writer threads (all column kinds, inserts with offset reuse, deletes, merges, multi-block transactions) on a primary whose every commit is tapped inside the block latch and forwarded to a real commit.Channel (consumed by an applier thread after a seeded link delay and replayed on REPLICA-C) and to a real commit.Log on a SimFile (replayed on REPLICA-L through a chunking reader); in odd runs a snapshotter thread takes snapshots meanwhile; schedule drawn per run from uniform/sticky/PCT/round-robin/phase-biased strategies over all hook points; at quiescence Dump(primary)==Dump(REPLICA-C)==Dump(REPLICA-L)==model; non-trivial = at least one commit and at least one scheduling decision with more than one enabled thread; distinct = distinct (interleaving signature, end state)",
 		Gen: func(seed uint64, run int, tier string) *Case {
 			return genConc("C06", seed, run, concProfile{minWriters: 2, maxWriters: 5, maxTxns: 3, maxOps: 4, replicas: true, snapshots: run % 2,
@@ -126,7 +126,7 @@ func init() {
 		Real: realComponents, Stub: concStub,
 	})
 	register(&PropDef{
-		ID: "C09", Quick: 5000, Thorough: 150000, Level: "exploration",
+		ID: "C09", Quick: 10000, Thorough: 600000, Level: "exploration",
 		Rule: "2-5 threads merging deltas into overlapping stable rows of one or several blocks (additive merges of every numeric type incl. wrap-around, order-sensitive v*3+d merges, string concat, record merge), mixed with overwrites, readers, a snapshotter and indexes on the merged columns; the model folds the deltas in block-latch order; oracle: every value read under a read latch and the final dump equal the fold, and the absolute values carried by the emitted commits equal the model's running values; non-trivial = at least one commit and one real scheduling choice; distinct = distinct (interleaving signature, end state)",
 		Gen: func(seed uint64, run int, tier string) *Case {
 			return genConc("C09", seed, run, concProfile{minWriters: 2, maxWriters: 5, minReaders: 0, maxReaders: 1, maxTxns: 3, maxOps: 4, snapshots: 0,
@@ -137,18 +137,18 @@ func init() {
 		Real: realComponents, Stub: concStub,
 	})
 	register(&PropDef{
-		ID: "C10", Quick: 5000, Thorough: 150000, Level: "exploration",
+		ID: "C10", Quick: 12000, Thorough: 600000, Level: "exploration",
 		Rule: "writers updating 1-4 columns of the same stable rows (also multi-block) park at the three in-commit hooks while holding the write latch; readers use QueryAt, Range and yield between two column reads inside one callback while holding the read latch; oracle: every value read inside a callback equals the model's committed state, which changes atomically per (transaction, block) under the write latch, so any mixture of two committed states of a row is a mismatch; non-trivial = at least one commit and one real scheduling choice; distinct = distinct (interleaving signature, end state)",
 		Gen: func(seed uint64, run int, tier string) *Case {
 			return genConc("C10", seed, run, concProfile{minWriters: 1, maxWriters: 3, minReaders: 1, maxReaders: 3, maxTxns: 3, maxOps: 3,
 				wUpdate: 10, wMerge: 3, wInsert: 1, wDeleteOwn: 1, wRangeRead: 5, wRangeWrite: 2, wPointRead: 6,
-				pAbort: 0.05, multiBlock: 0.4, maxCols: 5, stableRows: [2]int{1, 4}}, knownAvoid("C10", seed, run))
+				pAbort: 0.05, multiBlock: 0.4, maxCols: 5, stableRows: [2]int{1, 4}, farBlocks: 0.03}, knownAvoid("C10", seed, run))
 		},
 		Exec: func(cs *Case) *World { return runConc(cs, concOracles{}) },
 		Real: realComponents, Stub: concStub,
 	})
 	register(&PropDef{
-		ID: "C15", Quick: 5000, Thorough: 150000, Level: "exploration",
+		ID: "C15", Quick: 10000, Thorough: 600000, Level: "exploration",
 		Rule: "same world as C06 without replicas (in odd runs a snapshotter thread takes snapshots meanwhile, so commits also go to the snapshot recorder); oracle on the recording logger: exactly one commit per (committed transaction, block it changed), nothing for rolled-back, read-only or failing-insert-only transactions, ids distinct and non-zero, per block strictly increasing in the order the commits were applied (= reached the logger), decoded operations equal the issued ones; non-trivial = at least one commit and one real scheduling choice; distinct = distinct (interleaving signature, end state)",
 		Gen: func(seed uint64, run int, tier string) *Case {
 			return genConc("C15", seed, run, concProfile{minWriters: 2, maxWriters: 4, minReaders: 0, maxReaders: 1, maxTxns: 3, maxOps: 4, snapshots: run % 2,
@@ -159,7 +159,7 @@ func init() {
 		Real: realComponents, Stub: concStub,
 	})
 	register(&PropDef{
-		ID: "C08", Quick: 5000, Thorough: 150000, Level: "exploration",
+		ID: "C08", Quick: 10000, Thorough: 600000, Level: "exploration",
 		Rule: "a snapshotter thread takes 1-2 snapshots to a SimFile while 2-4 writers commit updates, merges, deletes and inserts (single- and multi-block); yield points in Snapshot (recorder opened, before each block, state written, recorder closed) and in the commit path; each snapshot is restored and every block must equal the model after some prefix j of the commits applied to that block in latch order with acknowledged-before-call <= j <= applied-at-return; Snapshot must not fail or panic; non-trivial = at least one commit and one real scheduling choice; distinct = distinct (interleaving signature, end state)",
 		Gen: func(seed uint64, run int, tier string) *Case {
 			cs := genConc("C08", seed, run, concProfile{minWriters: 2, maxWriters: 4, maxTxns: 3, maxOps: 3, snapshots: 1,
@@ -175,7 +175,7 @@ func init() {
 		Real: append(append([]string{}, realComponents...), "commit.OpenTemp recorder file in a private TMPDIR"), Stub: concStub,
 	})
 	register(&PropDef{
-		ID: "C13", Quick: 500, Thorough: 40000, Level: "fault_enumeration", Unit: "fault_points",
+		ID: "C13", Quick: 800, Thorough: 12000, Level: "fault_enumeration", Unit: "fault_points",
 		Rule: "histories: every 25th run logs one transaction that alternates between two full 16K blocks (two commits above 1 MiB each, several s2 frames, 16K shard headers per buffer) and cuts the log at every frame boundary +-2; otherwise 1-3 writers commit while a snapshotter thread takes 1-2 snapshots (so that snapshots carry a log tail recorded under concurrent commits) and every commit is also serialized to a commit.Log on a SimFile; crash points per stream: every byte prefix while the stream is below the tier's bound (quick 2 KiB, thorough 64 KiB), otherwise every recorded write boundary +-2 plus a seeded sample; at a third of the points a read error replaces EOF, a third of the restores read through 1/5/64-byte chunks; oracle: Restore/Range return within 10 s without panic, a nil Restore leaves a state equal to the complete state part plus some prefix of the logged commits (reference states rebuilt by appending j commits to a fresh log), Range delivers a prefix of the original commits, each identical; evaluations = fault points; distinct = distinct (interleaving, end state) of the producing histories",
 		Gen: func(seed uint64, run int, tier string) *Case {
 			if run%25 == 24 {
@@ -212,7 +212,7 @@ func init() {
 		Stub: []string{"disk: SimFile (records write boundaries) and SimReader (crash truncation at any byte, read error at byte n, seeded read chunking)", "thread scheduler producing the streams"},
 	})
 	register(&PropDef{
-		ID: "C14", Quick: 2000, Thorough: 20000, Level: "fault_enumeration", Unit: "fault_points",
+		ID: "C14", Quick: 2000, Thorough: 40000, Level: "fault_enumeration", Unit: "fault_points",
 		Rule: "even runs: single-client histories (every 20th with a state above 1 MiB: 16K rows x 100 incompressible bytes) ending in an empty, single-block or multi-block collection (all column kinds); against the final collection every write-call index k of the destination (fail-forever, and fail-once for odd k), every byte budget n while the stream is below the tier's bound (quick 1 KiB, thorough 8 KiB; otherwise write boundaries +-2 plus a sample) and 'temp dir unavailable' are injected; oracle: Snapshot returns non-nil iff the SimFile actually returned an error to some write (or the temp file could not be created); after each call the private TMPDIR is empty and /proc/self/fd is unchanged (GC off), and every 7th point a transaction commits, a Snapshot to a healthy SimFile succeeds and restores to the model (under a 20 s watchdog: a latch left held is a hang); odd runs (part B): a snapshotter thread writes to a SimFile with one drawn fault (write call 1..8 or byte budget 0..1500) while 1-3 writers commit, so the recorder is not empty and the log-copy phase writes too; same error-iff-fired, leak and restore oracles at quiescence, a deadlock after the failed snapshot is a violation; evaluations = fault points",
 		Gen: func(seed uint64, run int, tier string) *Case {
 			p := seqProfile{minSteps: 0, maxSteps: 10, wTxn: 20,
@@ -279,7 +279,7 @@ func init() {
 		Stub: []string{"disk: SimFile with a write fault plan (error at call k, short write after n bytes, fail-once, fail-forever)"},
 	})
 	register(&PropDef{
-		ID: "C05", Quick: 6000, Thorough: 200000, Level: "exploration",
+		ID: "C05", Quick: 10000, Thorough: 500000, Level: "exploration",
 		Rule: "even runs (foreign producer F): a simulated peer builds commit.Buffers through the public Put* API from a seeded operation sequence (delete/insert/put/merge/bool x 2/4/8-byte and string/bytes 0..65535 x offset moves same,+1,+small,+128..,+16384..,block jump,backwards,back to block 0), every buffer is read back with Seek and per-block Range, through Buffer.WriteTo/ReadFrom, Clone, Commit.WriteTo/ReadFrom and Log.Append/Range over the simulated disk (seeded read chunking down to 1 byte), merges are replaced through the reader's Swap calls (same and different length) and re-read, and F's transactions are shipped through a commit.Log to REPLICA-F whose dump must equal the model; odd runs (real path): single-client histories in which every commit handed to the logger is decoded and compared op for op with what the transaction issued (merges as puts of the merged result) and is cloned and serialized through the simulated disk; non-trivial = at least one shipped or emitted commit; distinct = distinct final model state",
 		Gen: func(seed uint64, run int, tier string) *Case {
 			if run%2 == 1 {
@@ -306,7 +306,7 @@ func init() {
 		Real: realComponents, Stub: []string{"disk: SimFile/SimReader under Buffer/Commit WriteTo/ReadFrom and commit.Log", "foreign producer F (harness code using only the public commit.Buffer Put* API)"},
 	})
 	register(&PropDef{
-		ID: "C17", Quick: 3000, Thorough: 100000, Level: "exploration",
+		ID: "C17", Quick: 12000, Thorough: 800000, Level: "exploration",
 		Rule: "runs inside a testing/synctest bubble: the collection's own vacuum goroutine runs on the fake clock and becomes one more simulated thread the first time it reaches a hook, so cleanup passes interleave at every hook with 1-3 writers that SetTTL (0.5..100 intervals, 1 h), Extend, delete and update unrelated columns of the same rows (a third of the rows never get a TTL), and readers; only the scheduler advances time (clock pseudo-thread: just before / exactly at / just after a tick, thirds, jumps over several ticks; cleanup interval 1 ms..10 s); oracles: every row the vacuum deletes (seen by the tap inside the block latch) must be live, hold a deadline, and that deadline must be in the past; when the vacuum is back at its ticker every row whose passed deadline was committed before that pass started must be gone; Row.TTL() equals deadline minus fake now; after the last clock fault three more intervals must remove everything overdue; the deadline column is identical on a replica fed the stream and after snapshot/restore; non-trivial = at least one cleanup pass and one commit; distinct = distinct (interleaving signature, end state)",
 		Gen:  func(seed uint64, run int, tier string) *Case { return genTTL(seed, run) },
 		Exec: runTTL,
@@ -314,7 +314,7 @@ func init() {
 		Stub: []string{"clock: testing/synctest fake clock, advanced only by the scheduler", "thread scheduler (vacuum goroutine self-registers at its first hook; quiescence via synctest.Wait)"},
 	})
 	register(&PropDef{
-		ID: "C18", Quick: 2500, Thorough: 80000, Level: "exploration", NoMinimise: true,
+		ID: "C18", Quick: 3000, Thorough: 60000, Level: "exploration", NoMinimise: true,
 		Rule: "race mode: the simulator is built with -race and the baton is passed through raw pipe system calls from //go:norace functions, so the detector sees no happens-before edge between simulated threads except the library's own synchronisation; 3-6 threads (writers inserting across a block boundary, updating, merging, deleting; readers with point reads, filtered Range, aggregates, key lookups; snapshots; restores into other collections; index and trigger creation/drop) run under a serialised, recorded schedule; oracles: race detector reports whose two accesses lie in the library or its data-structure dependencies (signature = unordered pair of innermost such frames), deadlock (no thread enabled given the real latch words), hang inside package sync, panics; non-trivial = at least one scheduling decision with more than one enabled thread; distinct = distinct interleaving signature",
 		Gen:  func(seed uint64, run int, tier string) *Case { return genRace(seed, run) },
 		Exec: runRace,
@@ -322,7 +322,7 @@ func init() {
 		Stub: []string{"thread scheduler (raw-pipe baton, no happens-before edges of its own)"},
 	})
 	register(&PropDef{
-		ID: "C07", Quick: 4000, Thorough: 120000, Level: "exploration",
+		ID: "C07", Quick: 6000, Thorough: 300000, Level: "exploration",
 		Rule: "single-client histories with repeated restart steps: Snapshot to a SimFile, Restore through a seeded chunking reader (1 byte .. whole) into a fresh collection with the same schema (indexes created before or after), swap it in and continue the history against the same model; after every step the full dump (values, Count, indexes, keys) is compared and every insert offset is checked against the model's live set; " + ruleSeq,
 		Gen: func(seed uint64, run int, tier string) *Case {
 			p := seqProfile{minSteps: 5, maxSteps: 24, wTxn: 16, wRestart: 5, wCreateIndex: 1,
@@ -334,7 +334,7 @@ func init() {
 		Real: realComponents, Stub: []string{"disk: in-memory SimFile (write recording) and SimReader (seeded read chunking)"},
 	})
 	register(&PropDef{
-		ID: "C11", Quick: 5000, Thorough: 150000, Level: "exploration",
+		ID: "C11", Quick: 10000, Thorough: 500000, Level: "exploration",
 		Rule: "part A (even runs): single-client insert/delete churn producing full, sparse and fragmented fill patterns across 64-bit word and 16K block boundaries under every capacity option, with failing insert callbacks and rollbacks; every offset handed to an insert is checked at the moment it is reserved against the model's live and reserved sets and against a churn bound, every row being inserted must expose nothing, Count and the full dump are compared after every step; part B (odd runs): 2-4 concurrently inserting and deleting threads under the controlled scheduler (hook after an insert reserved its offset), same reservation oracle, Count and dump at quiescence; " + ruleSeq,
 		Gen: func(seed uint64, run int, tier string) *Case {
 			p := seqProfile{minSteps: 6, maxSteps: 40, wTxn: 20,
@@ -356,7 +356,7 @@ func init() {
 		Real: realComponents, Stub: seqStub,
 	})
 	register(&PropDef{
-		ID: "C12", Quick: 5000, Thorough: 150000, Level: "exploration",
+		ID: "C12", Quick: 10000, Thorough: 600000, Level: "exploration",
 		Rule: "part A (even runs): single-client histories of InsertKey/UpsertKey/QueryKey/DeleteKey/SetKey over a 3-6 key alphabet (forcing repeats), several key operations per transaction, rollbacks, restarts; every return value is judged against the committed key map at issue time and after every step the key-map invariants (one live row per key, lookup reaches exactly that row, deleted/re-keyed keys do not resolve) are checked through QueryKey probes of the whole alphabet; part B (odd runs): 2-4 threads issue key operations concurrently (hook between the existence check and the insert), return values judged when no commit is in flight, one-live-row-per-key checked the moment each key write commits; " + ruleSeq,
 		Gen: func(seed uint64, run int, tier string) *Case {
 			p := seqProfile{minSteps: 6, maxSteps: 36, wTxn: 20, wRestart: 1, wCreateIndex: 1,
@@ -378,7 +378,7 @@ func init() {
 		Real: realComponents, Stub: seqStub,
 	})
 	register(&PropDef{
-		ID: "C16", Quick: 5000, Thorough: 150000, Level: "exploration",
+		ID: "C16", Quick: 8000, Thorough: 400000, Level: "exploration",
 		Rule: "single-client histories over a 5-letter string alphabet (forces equal keys) across several blocks with sorted indexes created before or after the data, overwrites to an existing value, merges, delete-then-reinsert, combined with generated filter chains; every Ascend sequence must contain exactly the selected rows holding a value, each once, in non-decreasing order of the model's current values; every third run (part B) creates sorted indexes on a populated multi-block collection while 1-3 writers commit (yield point before each block of the back-fill) and checks a full Ascend at quiescence; " + ruleSeq,
 		Gen: func(seed uint64, run int, tier string) *Case {
 			p := seqProfile{minSteps: 5, maxSteps: 28, wTxn: 20, wCreateSort: 4, wDropSort: 1, wCreateIndex: 1,
@@ -402,13 +402,13 @@ func init() {
 		Real: realComponents, Stub: seqStub,
 	})
 	register(&PropDef{
-		ID: "C19", Quick: 5000, Thorough: 150000, Level: "exploration",
-		Rule: "single-client histories of puts, merges (incl. length-changing string/record merges), row deletes and rollbacks over several blocks with triggers created and dropped mid-history; after every transaction the callback log is compared, per trigger and row, with the model's committed stores (issue order, value after merge) and deletions; every third run (part B) creates and drops triggers (several on one column) from a schema thread while 1-3 writers commit: a block commit lying inside a trigger's life (latch taken after the creation, released before the drop) must be reported to it exactly, one that ended before the creation or started after the drop not at all, overlapping ones are not judged; " + ruleSeq,
+		ID: "C19", Quick: 10000, Thorough: 400000, Level: "exploration",
+		Rule: "single-client histories of puts, merges (incl. length-changing string/record merges), row deletes and rollbacks over several blocks with triggers created and dropped mid-history; after every transaction the callback log is compared, per trigger and row, with the model's committed stores (issue order, value after merge) and deletions; odd runs (part B) create and drop triggers (several on one column) from a schema thread while 1-3 writers commit: a block commit lying inside a trigger's life (latch taken after the creation, released before the drop) must be reported to it exactly, one that ended before the creation or started after the drop not at all, overlapping ones are not judged; " + ruleSeq,
 		Gen: func(seed uint64, run int, tier string) *Case {
 			p := seqProfile{minSteps: 5, maxSteps: 28, wTxn: 20, wCreateTrig: 5, wDropTrig: 2,
 				wInsert: 8, wAt: 10, wRange: 3, wDelete: 4, wDeleteAll: 1,
 				pAbort: 0.2, pMerge: 0.4, maxCols: 5, multiBlock: 0.5, triggers: true}
-			if run%3 == 2 {
+			if run%2 == 1 {
 				// part B: triggers are created and dropped (several on one column) while writers commit
 				return genConc("C19", seed, run, concProfile{minWriters: 1, maxWriters: 3, maxTxns: 3, maxOps: 3, indexers: 1, schemaTriggers: true,
 					wUpdate: 10, wMerge: 4, wInsert: 2, wDeleteOwn: 2, wRangeWrite: 1,
